@@ -1,6 +1,7 @@
 package sshmux
 
 import (
+	"encoding/binary"
 	"fmt"
 	"io"
 	"math/rand/v2"
@@ -200,20 +201,29 @@ func (p *recvPeer) sender(c *rchan) {
 			if uint64(k) > c.win {
 				k = int(c.win)
 			}
-			buf := make([]byte, k)
+			// packets are built in place and handed over (no copies)
 			switch cls {
 			case 0:
-				fillStamps(buf, c.salt[0], c.sent[0])
-				p.end.WritePacket(EncData(c.muxID, buf))
-			case 1:
-				fillStamps(buf, c.salt[1], c.sent[1])
-				p.end.WritePacket(EncExtData(c.muxID, 1, buf))
+				pkt := make([]byte, 9+k)
+				pkt[0] = MsgChanData
+				binary.BigEndian.PutUint32(pkt[1:], c.muxID)
+				binary.BigEndian.PutUint32(pkt[5:], uint32(k))
+				fillStamps(pkt[9:], c.salt[0], c.sent[0])
+				p.end.WriteOwned(pkt)
 			default:
-				for j := range buf {
-					buf[j] = byte(c.rng.Uint32())
+				pkt := make([]byte, 13+k)
+				pkt[0] = MsgChanExtData
+				binary.BigEndian.PutUint32(pkt[1:], c.muxID)
+				binary.BigEndian.PutUint32(pkt[9:], uint32(k))
+				if cls == 1 {
+					binary.BigEndian.PutUint32(pkt[5:], 1)
+					fillStamps(pkt[13:], c.salt[1], c.sent[1])
+				} else {
+					binary.BigEndian.PutUint32(pkt[5:], mon.Pick(c.rng, extCodes))
+					fillStamps(pkt[13:], c.salt[0]^0x5555, c.sent[2])
+					c.discEnds = append(c.discEnds, c.sent[2]+uint64(k))
 				}
-				p.end.WritePacket(EncExtData(c.muxID, mon.Pick(c.rng, extCodes), buf))
-				c.discEnds = append(c.discEnds, c.sent[2]+uint64(k))
+				p.end.WriteOwned(pkt)
 			}
 			c.sent[cls] += uint64(k)
 			c.win -= uint64(k)
@@ -590,9 +600,10 @@ func pairCase(m *mon.M, i int64, r *rand.Rand) {
 			<-gate
 			pos := uint64(0)
 			for _, n := range ps.sizes {
-				buf := make([]byte, n)
+				buf := getBuf(n)
 				fillStamps(buf, ps.salt, pos)
 				got, err := w.Write(buf)
+				putBuf(buf)
 				if err != nil || got != n {
 					resMu.Lock()
 					werrs = append(werrs, fmt.Sprintf("channel p%d side %d code %d: Write(%d) = %d, %v", ps.ch, ps.from, ps.code, n, got, err))
